@@ -346,3 +346,26 @@ func ZZC06RR(n int) {
 		}
 	}
 }
+
+// ZZC06Amb(n): two goroutines register patterns that are ambiguous with each other (same shape,
+// different parameter names) at the same time: whatever the schedule, exactly one of them is
+// accepted - the check and the insertion of a registration are one atomic step. n = 1: the table
+// already holds other routes.
+func ZZC06Amb(n int) {
+	r := zzNewRouter("r", WithLock(true))
+	if n == 1 {
+		r.Handle("/t/au", &hnd{id: 1}, nil, "GET")
+		r.Handle("/n/x", &hnd{id: 2}, nil, "GET")
+	}
+	var p1, p2 bool
+	zzv.Par(
+		func() { p1, _ = zzGuard(func() { r.Handle("/n/{a}", &hnd{id: 10}, nil, "GET") }) },
+		func() { p2, _ = zzGuard(func() { r.Handle("/n/{b}", &hnd{id: 11}, nil, "GET") }) },
+	)
+	zzv.Cover("ambiguous-pair")
+	rs := r.Routes()
+	_, hasA := rs["/n/{a}"]
+	_, hasB := rs["/n/{b}"]
+	zzv.Assert(hasA != hasB, "concurrent-ambiguous-registrations:not-exactly-one-accepted")
+	zzv.Assert(p1 != p2 && p1 == hasB, "concurrent-ambiguous-registrations:the-rejected-call-did-not-panic-or-the-accepted-one-did")
+}
